@@ -92,7 +92,8 @@ theorem flattenOrdList_struct : ∀ (xs : List Loc), structPList xs = true →
 
 /-- `Order` of at least two structurally canonical arguments is a structurally canonical `Ordered` -/
 theorem order_struct (xs : List Loc) (h : structPList xs = true) (h2 : 2 ≤ xs.length) :
-    structP (order xs) = true ∧ isComplC (order xs) = false ∧ isJoinedC (order xs) = false := by
+    structP (order xs) = true ∧ isComplC (order xs) = false ∧ isJoinedC (order xs) = false ∧
+    isOrderedC (order xs) = true := by
   have hf := flattenOrdList_struct xs h
   unfold order
   generalize flattenOrdList xs = j at hf
@@ -101,7 +102,7 @@ theorem order_struct (xs : List Loc) (h : structPList xs = true) (h2 : 2 ≤ xs.
   | [], _, hl => simp only [List.length_nil] at hl; omega
   | [a], _, hl => simp only [List.length_cons, List.length_nil] at hl; omega
   | a :: b :: r, hj, _ =>
-    refine ⟨?_, rfl, rfl⟩
+    refine ⟨?_, rfl, rfl, rfl⟩
     simp only [structP, Bool.and_eq_true, Bool.not_eq_true', decide_eq_true_eq]
     refine ⟨⟨(structPList_iff _).mpr fun u hu => (hj u hu).1, by simp⟩, ?_⟩
     rw [List.any_eq_false]
@@ -212,13 +213,15 @@ structure LocHom (f : Loc → Loc) (g : Loc → Bool) (π : List Loc → List Lo
   gJoined : ∀ ls, g (Loc.joined ls) = (ls.any g || joinK3 (π (ls.map f)))
   gOrdered : ∀ ls, g (Loc.ordered ls) = ls.any g
   gCompl : ∀ l, g (Loc.compl l) = g l
+  gLeaf : ∀ l, isLeafC l = true → g l = false
   leaf : ∀ l, isLeafC l = true → structP (f l) = true ∧ plainOut (f l) = true
 
 /-- what the induction carries: the result is structurally canonical; a `Complemented` comes from a
 `Complemented` only; a plain part is pushed as plain elements -/
 def HomOk (f : Loc → Loc) (l : Loc) : Prop :=
   structP (f l) = true ∧ (isComplC l = false → isComplC (f l) = false) ∧
-  (isComplC l = false → isJoinedC l = false → plainOut (f l) = true)
+  (isComplC l = false → isJoinedC l = false → plainOut (f l) = true) ∧
+  (isOrderedC l = true → isOrderedC (f l) = true)
 
 theorem flatJ_ne_nil_of_struct (y : Loc) (h : structP y = true) : flatJ y ≠ [] := by
   by_cases hj : isJoinedC y = true
@@ -260,7 +263,7 @@ theorem hom_joined (h : LocHom f g π) (ls : List Loc) (hs : structP (Loc.joined
       left
       cases l <;> simp [isComplC] at hc
       rw [h.compl]; rfl
-    | false => exact Or.inr ((ih l hl).2.2 hc (partOk_not_joined l (hparts l hl)))
+    | false => exact Or.inr ((ih l hl).2.2.1 hc (partOk_not_joined l (hparts l hl)))
   have hmapadj : noAdjCompl (ls.map f) = true := by
     refine noAdjCompl_map f ls (fun l hl hq => ?_) hnadj
     cases hc : isComplC l with
@@ -277,7 +280,7 @@ theorem hom_joined (h : LocHom f g π) (ls : List Loc) (hs : structP (Loc.joined
       · exact ⟨a, by simp, h⟩
       · exact ⟨b, by simp, h⟩
   obtain ⟨l0, hl0, hc0⟩ := hplain
-  have hp0 := (ih l0 hl0).2.2 hc0 (partOk_not_joined l0 (hparts l0 hl0))
+  have hp0 := (ih l0 hl0).2.2.1 hc0 (partOk_not_joined l0 (hparts l0 hl0))
   simp only [plainOut, Bool.and_eq_true, Bool.not_eq_true', List.isEmpty_eq_false_iff] at hp0
   have hmem0 : ∀ u ∈ flatJ (f l0), u ∈ flatJList (π (ls.map f)) := by
     have : f l0 ∈ π (ls.map f) := (h.perm.mem _ _).mpr (List.mem_map.mpr ⟨l0, hl0, rfl⟩)
@@ -294,7 +297,7 @@ theorem hom_joined (h : LocHom f g π) (ls : List Loc) (hs : structP (Loc.joined
   have hne : flatJList (π (ls.map f)) ≠ [] := List.ne_nil_of_mem (hmem0 u0 hu0)
   have hpl : ∃ y ∈ flatJList (π (ls.map f)), isComplC y = false :=
     ⟨u0, hmem0 u0 hu0, by simpa using List.all_eq_true.mp hp0.1 u0 hu0⟩
-  refine ⟨?_, fun _ => ?_, fun _ hj => by simp [isJoinedC] at hj⟩
+  refine ⟨?_, fun _ => ?_, fun _ hj => by simp [isJoinedC] at hj, fun ho => by simp [isOrderedC] at ho⟩
   · rw [h.joined]; exact join_struct _ hxs hne hflat.1 hg.2
   · rw [h.joined]; exact join_not_compl _ hxs hflat.1 hg.2 hpl
 
@@ -311,7 +314,7 @@ theorem hom_ordered (h : LocHom f g π) (ls : List Loc) (hs : structP (Loc.order
   have := order_struct (π (ls.map f)) hxs (by rw [h.perm.len, List.length_map]; exact hs.1.2)
   unfold HomOk
   rw [h.ordered]
-  exact ⟨this.1, fun _ => this.2.1, fun _ _ => plainOut_of_leafy _ this.2.1 this.2.2⟩
+  exact ⟨this.1, fun _ => this.2.1, fun _ _ => plainOut_of_leafy _ this.2.1 this.2.2.1, fun _ => this.2.2.2⟩
 
 mutual
 /-- **a function of the shape of the edit operations keeps structurally canonical locations
@@ -319,16 +322,16 @@ structurally canonical unless the K3 shape arises in one of its `Join`s** -/
 theorem hom_struct (h : LocHom f g π) : ∀ (l : Loc), structP l = true → g l = false → HomOk f l
   | between p, _, _ => by
       have := h.leaf (between p) rfl
-      exact ⟨this.1, fun _ => plainOut_not_compl _ this.2, fun _ _ => this.2⟩
+      exact ⟨this.1, fun _ => plainOut_not_compl _ this.2, fun _ _ => this.2, fun ho => by simp [isOrderedC] at ho⟩
   | point p, _, _ => by
       have := h.leaf (point p) rfl
-      exact ⟨this.1, fun _ => plainOut_not_compl _ this.2, fun _ _ => this.2⟩
+      exact ⟨this.1, fun _ => plainOut_not_compl _ this.2, fun _ _ => this.2, fun ho => by simp [isOrderedC] at ho⟩
   | ranged s e a b, _, _ => by
       have := h.leaf (ranged s e a b) rfl
-      exact ⟨this.1, fun _ => plainOut_not_compl _ this.2, fun _ _ => this.2⟩
+      exact ⟨this.1, fun _ => plainOut_not_compl _ this.2, fun _ _ => this.2, fun ho => by simp [isOrderedC] at ho⟩
   | ambiguous s e, _, _ => by
       have := h.leaf (ambiguous s e) rfl
-      exact ⟨this.1, fun _ => plainOut_not_compl _ this.2, fun _ _ => this.2⟩
+      exact ⟨this.1, fun _ => plainOut_not_compl _ this.2, fun _ _ => this.2, fun ho => by simp [isOrderedC] at ho⟩
   | Loc.joined ls, hs, hg => by
       have hs' := hs
       simp only [structP, Bool.and_eq_true] at hs'
@@ -344,7 +347,8 @@ theorem hom_struct (h : LocHom f g π) : ∀ (l : Loc), structP l = true → g l
       simp only [structP, Bool.and_eq_true, Bool.not_eq_true'] at hs
       rw [h.gCompl] at hg
       have ih := hom_struct h l hs.1 hg
-      refine ⟨?_, fun hc => by simp [isComplC] at hc, fun hc => by simp [isComplC] at hc⟩
+      refine ⟨?_, fun hc => by simp [isComplC] at hc, fun hc => by simp [isComplC] at hc,
+        fun ho => by simp [isOrderedC] at ho⟩
       rw [h.compl]
       simp only [structP, Bool.and_eq_true, Bool.not_eq_true']
       exact ⟨ih.1, ih.2.1 hs.2⟩
